@@ -21,8 +21,8 @@ PROP_ORACLES = {
     'C11': ['composite.memory', 'composite.altroot', 'composite.physical', 'transfer', 'copydir'],
     'C12': ['paths', 'tree.memory', 'tree.altroot', 'walk.vanish', 'faults'],
     'C13': ['paths', 'reader', 'writer', 'tree.memory', 'tree.altroot', 'tree.overlay', 'tree.physical', 'union.overlay', 'overlay', 'transfer', 'handles', 'hostile.physical', 'times', 'embedded', 'adiff:hostile', 'adiff:reader', 'adiff:schedule', 'adiff:steps.memory'],
-    'C14': ['reader', 'writer'],
-    'C15': ['adiff:steps.memory', 'adiff:steps.altroot', 'adiff:steps.overlay', 'adiff:steps.physical', 'adiff:reader', 'adiff:schedule', 'adiff:hostile', 'adiff:transfer'],
+    'C14': ['reader', 'writer', 'handles'],
+    'C15': ['adiff:steps.memory', 'adiff:steps.altroot', 'adiff:steps.overlay', 'adiff:steps.physical', 'adiff:reader', 'adiff:schedule', 'adiff:hostile', 'adiff:transfer', 'adiff:handles'],
     'C18': ['embedded'],
     'C19': ['times'],
     'C20': ['faults', 'composite.memory', 'transfer', 'copydir', 'walk.vanish'],
@@ -46,8 +46,9 @@ BOUNDS = {
     'embedded': 'EmbeddedFS over the fixture folder replay/embed (nested, dotted, multi-byte, prefix-sharing names, an empty file) against PhysicalFS on the same folder: for every embedded file and implied directory, the root, and for each an extension, a prefix, a sibling and a path below it (65 paths): existence, type, length, bytes, listings, walk; every mutating call is refused as not-supported; nothing changes',
     'times': 'set_creation/modification/access_time: 3 fields x 3 fields (ordered pairs) x 7 instants (epoch, sub-second, before the epoch, far future) on a file, a directory and the root, on memory, altroot, overlay (upper-layer entries), physical and altroot over physical; plus append sessions (creation time kept, also when set while the handle is open)',
     'walk.vanish': 'entries removed while a walk is under way (2 and 4 files; memory, altroot, overlay): one not-found error item per vanished entry, naming it, then the end',
+    'adiff:handles': '5 scenarios of write handles that overlap (idle handle dropped last, repeated flush after a foreign write, two append handles) or outlive their file (idle / with data) on memory, altroot, overlay: the async tree and bytes end up like the sync ones',
     'adiff:transfer': 'copy_file / move_file from a memory / altroot / physical source to another in-memory filesystem, with and without an existing destination: async against sync',
-    'handles': '6 scenarios of read / write handles that outlive their file (removed, ancestor removed, re-created) on memory, altroot, overlay: no panic, filesystem usable afterwards',
+    'handles': '8 scenarios of read / write handles that outlive their file (removed, ancestor removed, re-created) or overlap with a second write handle on the same file (each flush and the drop publish exactly the own buffer) on memory, altroot, overlay: no panic, filesystem usable afterwards',
     'hostile.physical': '14 operations on every entry of a directory holding a dangling symlink, symlinks to a directory and to a file and a non-UTF-8 name: no panic; metadata type agrees with listability',
     'adiff:steps.memory': 'differential, sync MemoryFS vs AsyncMemoryFS: all sequences of 2 (deep: 3) operations (11 kinds incl. move/copy file, copy/move dir x 8 paths) from the empty and from a populated tree; after every step the result class and every observation (exists, metadata type/len, is_file/is_dir, listing, bytes, text, walk) of every path must agree',
     'adiff:steps.altroot': 'same (length 2), AltrootFS vs AsyncAltrootFS over in-memory filesystems',
